@@ -19,83 +19,6 @@ type Case struct {
 	Style string        `json:"style,omitempty"`
 }
 
-// growLine draws a line that is simple by construction: each new segment is redrawn (not the case) while it comes
-// too close to the existing line.
-func growLine(t *rapid.T, n int, style string) []vkit.P2 {
-	x, y := rapid.Float64Range(-10, 10).Draw(t, "x0"), rapid.Float64Range(-10, 10).Draw(t, "y0")
-	line := []vkit.P2{vkit.MkP(x, y)}
-	heading := rapid.Float64Range(0, 2*math.Pi).Draw(t, "h0")
-	rad := 0.5
-	for len(line) < n {
-		ok := false
-		for try := 0; try < 6 && !ok; try++ {
-			var nx, ny float64
-			switch style {
-			case "walk":
-				heading += rapid.Float64Range(-2.6, 2.6).Draw(t, "turn")
-				l := rapid.Float64Range(0.2, 3).Draw(t, "len")
-				nx, ny = x+l*math.Cos(heading), y+l*math.Sin(heading)
-			case "spiral":
-				heading += rapid.Float64Range(0.3, 1.2).Draw(t, "dtheta")
-				rad *= rapid.Float64Range(1.0, 1.25).Draw(t, "grow")
-				nx, ny = float64(line[0][0])+rad*math.Cos(heading), float64(line[0][1])+rad*math.Sin(heading)
-			case "inspiral":
-				heading += rapid.Float64Range(0.3, 1.2).Draw(t, "dtheta")
-				rad = 6 * math.Pow(rapid.Float64Range(0.85, 0.99).Draw(t, "shrink"), float64(len(line)))
-				nx, ny = float64(line[0][0])+6-rad*math.Cos(heading), float64(line[0][1])+rad*math.Sin(heading)
-			case "zigzag":
-				nx = x + rapid.Float64Range(0.1, 1).Draw(t, "dx")
-				amp := rapid.Float64Range(0.05, 2).Draw(t, "amp")
-				if len(line)%2 == 0 {
-					amp = -amp
-				}
-				ny = float64(line[0][1]) + amp
-			default: // hook: a long run followed by a tail that curls back across the chord
-				l := rapid.Float64Range(0.2, 3).Draw(t, "len")
-				if len(line) > n/2 {
-					heading += rapid.Float64Range(0.4, 1.4).Draw(t, "curl")
-				} else {
-					heading += rapid.Float64Range(-0.4, 0.4).Draw(t, "wiggle")
-				}
-				nx, ny = x+l*math.Cos(heading), y+l*math.Sin(heading)
-			}
-			cand := vkit.MkP(nx, ny)
-			if segClear(line, cand, 1e-3) {
-				line = append(line, cand)
-				x, y = nx, ny
-				ok = true
-			}
-		}
-		if !ok {
-			break
-		}
-	}
-	return line
-}
-
-// segClear: the new segment last->cand stays farther than margin from every earlier segment except its neighbour,
-// which it may only touch at the shared vertex.
-func segClear(line []vkit.P2, cand vkit.P2, margin float64) bool {
-	n := len(line)
-	last := line[n-1]
-	if vkit.DistPtSeg(cand, last, last) <= margin {
-		return false
-	}
-	for i := 0; i+1 < n; i++ {
-		a, b := line[i], line[i+1]
-		if i+1 == n-1 {
-			if vkit.DistPtSeg(cand, a, b) <= margin || vkit.DistPtSeg(a, last, cand) <= margin {
-				return false
-			}
-			continue
-		}
-		if vkit.SegSegDist(a, b, last, cand) <= margin {
-			return false
-		}
-	}
-	return true
-}
-
 func randLine(t *rapid.T, maxN int) []vkit.P2 {
 	n := rapid.IntRange(0, maxN).Draw(t, "n")
 	var cg *rapid.Generator[float64]
@@ -119,7 +42,7 @@ func genLine(t *rapid.T) ([]vkit.P2, string) {
 	case "short":
 		return randLine(t, 2), style
 	}
-	return growLine(t, rapid.IntRange(1, 40).Draw(t, "n"), style), style
+	return vkit.GrowLine(t, rapid.IntRange(1, 40).Draw(t, "n"), style), style
 }
 
 func genTol(t *rapid.T) vkit.F {
@@ -424,7 +347,7 @@ func TestProp(t *testing.T) {
 			"vertex within tol*(1+1e-9) of its replacing segment (dynamic programme, so duplicate vertices cannot confuse it), input unchanged, members simplified " +
 			"independently, and - when the input is simple by an independent O(n^2) test with margin 1e-6 - no two non-adjacent output segments properly cross (orientation margin 1e-9). " +
 			"Non-trivial = at least one vertex dropped. Distinct by case hash.",
-		Assumptions: []string{"termination is decided by a 20 s watchdog on calls that normally take microseconds, confirmed by a fresh-process replay", "rings of one polygon are not claimed independent (the code passes sibling rings as obstacles)"},
+		Assumptions:  []string{"termination is decided by a 20 s watchdog on calls that normally take microseconds, confirmed by a fresh-process replay", "rings of one polygon are not claimed independent (the code passes sibling rings as obstacles)"},
 		Gen:          gen,
 		Run:          run,
 		Guard:        true,
